@@ -16,6 +16,7 @@ import Octo.Model.NumFuncs
   `filled[i]`, `fields[i]` and the widening rules                | `inferStep` on `Option Ty`
   `for i := 0; i < 100; i++ { row … }`                           | `inferRows` over `rows.take 100`
   `fieldNames[i] = fmt.Sprintf("column_%d", i)`                  | `columnName`
+  a header that repeats a column name is an error                 | `hasDupName`
   Go (execution.go, after the repair)                            |
   the cascade `Int.Is(type) … Float.Is(type) … NewString(str)`   | `cellExec`;  before the repair: `cellExecRaw`
 -/
@@ -141,11 +142,22 @@ inductive CreateRes where
   | ok (names : List Name) (tys : List Ty)
   deriving Repr
 
+/-- `if seen[fieldName] { return … "duplicate column name in csv header" }` -/
+def hasDupName : List Name → Bool
+  | [] => false
+  | n :: ns => ns.contains n || hasDupName ns
+
+def CsvFile.dupHeader (f : CsvFile) : Bool :=
+  match f.header with
+  | some h => hasDupName h
+  | none => false
+
 /-- `Creator`: names and inferred types -/
 def csvCreate (f : CsvFile) : CreateRes :=
   let n := f.ncols
   let preview := f.rows.take previewRows
-  if (firstRagged n 0 preview).isSome then .error
+  if f.dupHeader then .error
+  else if (firstRagged n 0 preview).isSome then .error
   else
     let names := match f.header with
       | some h => h
